@@ -254,7 +254,7 @@ def _placeholder_only_when_absent(t):
         t = t[2] if t[0] == 'xf' else t[1]
     if t[0] == 'orelse' and has(t[2]) and not has(t[1]):
         x = t[1]
-        narrowing = [s_ for s_ in P.subterms(x) if isinstance(s_, tuple) and s_ and (s_[0] in ('none', 'absent') or (s_[0] == 'op' and s_[1] in ('filter', 'then', 'then_some')))]
+        narrowing = [lf for cs_, lf in P.leaves(x) if isinstance(lf, tuple) and lf and (lf[0] == 'none' or (lf[0] == 'op' and lf[1] in ('filter', 'then', 'then_some')))]
         if narrowing:
             return 'bad', 'the mapped path can itself be None (%s) before the fallback applies' % P.show(narrowing[0], 0, 2)[:60]
         return 'ok', 'fallback of the mapped Option'
